@@ -89,7 +89,7 @@ int32_t jls_buf_realloc(struct jls_buf_s * self, size_t size) {
 
     size_t alloc_size = self->alloc_size;
     while (alloc_size < size) {
-        alloc_size *= alloc_size;
+        alloc_size *= 2;
     }
 
     uint8_t * ptr = realloc(self->start, alloc_size);
